@@ -93,6 +93,13 @@ Theorem c15_sched_delete_evicts : forall c deep ls g tr w g' id e, grun c deep (
   mcache_at c g' (ev_key e) = None /\ mstore_at c g' (ev_key e) = None.
 Proof. exact sched_delete_evicts. Qed.
 
+(* a caller whose context ends while its request is being handled gets the context's error and changes nothing;
+   every theorem of this block quantifies over schedules that contain such labels *)
+Theorem c15_sched_abandon_keeps_state : forall c deep g w g' a, gstep c deep g (GAbandon w) = Some (g', a) ->
+  a = ARefused ECtx /\ forall k, mcache_at c g' k = mcache_at c g k /\ mstore_at c g' k = mstore_at c g k
+                                 /\ mcommitted_at c g' k = mcommitted_at c g k.
+Proof. exact sched_abandon_keeps_state. Qed.
+
 (* operations on the same key are applied to the store one at a time, in the order they were accepted *)
 Theorem c15_sched_same_key_serial : forall c deep ls g tr k, grun c deep (minit c) ls = Some (g, tr) ->
   follows (queued_of k tr) (store_calls_of k tr).
@@ -205,6 +212,16 @@ Example c15_ex_upsert_miss :
   /\ store_at ex_merge_cfg (fst (fst (do_op ex_merge_cfg g0 (OUpsertLoad 4 9) [FOk; FErr]))) 4 = Some 1010009.
 Proof. vm_compute. repeat split. Qed.
 
+(* a get whose caller leaves while the load is in progress still caches what it loaded under ITS key *)
+Definition ex_ab_cfg := mkCfg 1 None [] [(1, 5); (2, 9)].
+Example c15_ex_abandoned_get :
+  match grun ex_ab_cfg 0 (minit ex_ab_cfg)
+          [GCall (mkJob 0 (OGet 1) []); GStep 0; GAbandon 0; GCall (mkJob 1 (OGet 2) []); GStep 0; GStep 0; GStep 0; GStep 0; GStep 0] with
+  | Some (g, tr) => mcache_at ex_ab_cfg g 1 = Some (Some 5) /\ mcache_at ex_ab_cfg g 2 = Some (Some 9)
+                    /\ nth 5 (map snd tr) AStopped = AStep 0 (EvSet 1 (Some 5)) (Some (RErr ECtx))
+  | None => False end.
+Proof. vm_compute. repeat split. Qed.
+
 Print Assumptions c15_case_sound.
 Print Assumptions c15_seq_model_holds.
 Print Assumptions c15_conc_model_holds.
@@ -237,3 +254,5 @@ Print Assumptions c15_lru_oversize_write_uncached.
 Print Assumptions c15_lru_fitting_write_cached.
 Print Assumptions c15_ex_oversize_growth.
 Print Assumptions c15_ex_upsert_miss.
+Print Assumptions c15_sched_abandon_keeps_state.
+Print Assumptions c15_ex_abandoned_get.
